@@ -604,6 +604,12 @@ def run(R):
             one_stack(R, B, vm, chunk, {'stack': 'integers around powers of two', 'first': str(chunk[0]), 'last': str(chunk[-1])})
             R.case(mon.fp('pow2', i))
             R.count('power_of_two_integers', len(chunk))
+    # tuples of every length 0..40 and 250..255 (vm_tuple_nil / vm_tuple_tcons chaining, the single-entry and two-entry heads)
+    if R.shard == 0:
+        for n in list(range(41)) + list(range(250, 256)):
+            one_stack(R, B, vm, [('tuple', [i - 3 for i in range(n)]), n], {'stack': f'tuple of length {n}'})
+            R.cover('tuple_lengths', n)
+            R.case(mon.fp('tuplen', n))
     R.floor('double_serialisations', 50)
     R.floor('history_serialisations', 100)
     R.floor('history_ops', 4, 'set')
